@@ -19,10 +19,14 @@ type c09Case struct {
 	Trusted bool     `json:"with_trusted_head"`
 	Seq     []string `json:"arrivals"` // answer kind of the i-th arriving peer
 	Honour  bool     `json:"honour_deadlines"`
+	// NoTracked: every peer is disconnected before the call, so the tracker has no peers and
+	// Head(WithTrustedHead) falls back to dialling the trusted peers; verification against the trusted
+	// head is owed all the same
+	NoTracked bool `json:"no_tracked_peers,omitempty"`
 }
 
 func (c c09Case) String() string {
-	return fmt.Sprintf("trustedHead=%v dl=%v arrivals=%v", c.Trusted, c.Honour, c.Seq)
+	return fmt.Sprintf("trustedHead=%v noTracked=%v dl=%v arrivals=%v", c.Trusted, c.NoTracked, c.Honour, c.Seq)
 }
 
 // chain with trust range 5; trusted head t = c[9]
@@ -114,6 +118,13 @@ func c09Exec(t *testing.T, run *vk.Run, c c09Case) (out c09Out, ok bool) {
 			run.HarnessError("C09 exchange: %v", err)
 			return
 		}
+		if c.NoTracked {
+			vk.Settle()
+			for _, p := range net.Peers {
+				_ = net.MN.DisconnectPeers(net.Client.ID(), p.ID())
+			}
+			vk.Settle()
+		}
 		ctx, cancel := context.WithTimeout(context.Background(), 30*time.Second)
 		defer cancel()
 		call := vk.Spawn(func() (*vk.H, error) {
@@ -159,6 +170,9 @@ func c09Check(run *vk.Run, c c09Case, o c09Out) {
 	n := len(c.Seq)
 	sp := c09Specials()
 	feat := fmt.Sprintf("n=%d,trusted=%v,dl=%v,seq=%s", n, c.Trusted, c.Honour, strings.Join(c.Seq, ""))
+	if c.NoTracked {
+		feat += ",no-tracked-peers"
+	}
 	viol := func(clause, format string, a ...any) {
 		run.Violate("C09/"+clause+"/"+feat, c, "%s: %s", c, fmt.Sprintf(format, a...))
 	}
@@ -308,7 +322,7 @@ func seqs(alpha []string, n int, f func([]string)) {
 func TestC09(t *testing.T) {
 	run := vk.NewRun("C09", "model_checking")
 	defer run.Finish()
-	run.SetRule("real Exchange.Head over mocknet; every ordered arrival sequence of peer answers over {A, A' (conflicting), B (higher), older, error, hang} for 1..5 (thorough 6) trusted peers, and over {A, A', B, older(hard), bad-link(hard), S(soft), error, hang} for 1..4 tracked peers with WithTrustedHead; the arrival order is imposed with release gates and the call's completion is observed after every single arrival; reference = fold over the sequence with the quorum rule; distinct = (n, mode, quorum?, hang?, multiset, outcome)")
+	run.SetRule("real Exchange.Head over mocknet; every ordered arrival sequence of peer answers over {A, A' (conflicting), B (higher), older, error, hang} for 1..5 (thorough 6) trusted peers, and over {A, A', B, older(hard), bad-link(hard), S(soft), error, hang} for 1..4 tracked peers with WithTrustedHead (and for 1..2 peers with every peer disconnected beforehand, so the call falls back to the trusted peers); the arrival order is imposed with release gates and the call's completion is observed after every single arrival; reference = fold over the sequence with the quorum rule; distinct = (n, mode, quorum?, hang?, multiset, outcome)")
 	run.Assume("with more than 4 tracked peers Head asks a map-order subset; that case is not enumerated")
 
 	var rc c09Case
@@ -330,6 +344,9 @@ func TestC09(t *testing.T) {
 	for n := 1; n <= 4; n++ {
 		seqs(plain, n, func(s []string) { cases = append(cases, c09Case{Seq: s, Honour: true}) })
 		seqs(trusted, n, func(s []string) { cases = append(cases, c09Case{Trusted: true, Seq: s, Honour: true}) })
+		if n <= 2 {
+			seqs(trusted, n, func(s []string) { cases = append(cases, c09Case{Trusted: true, NoTracked: true, Seq: s, Honour: true}) })
+		}
 	}
 	seqs(plainReduced, 5, func(s []string) { cases = append(cases, c09Case{Seq: s, Honour: true}) })
 	seqs([]string{"A", "B", "hang", "error"}, 3, func(s []string) {
